@@ -758,6 +758,9 @@ def run_kb(ck):
                 # cproc accepts (constraint checking is C10) or a Spec/model disagreement on a valid
                 # one -- the latter would contradict the theorems, so look at it through clang below
                 stats["spec_invalid_skipped"] += 1
+                key = "/".join(str(x) for x in p.cls[:2])
+                inv = stats.setdefault("spec_invalid_classes", {})
+                inv[key] = inv.get(key, 0) + 1
                 p.model["skip"] = True
             else:
                 idx.append(i)
